@@ -2,6 +2,7 @@ package props
 
 import (
 	"fmt"
+	"strings"
 
 	"verifharness/explore"
 	"verifharness/gen"
@@ -88,6 +89,18 @@ func checkBuilt(c *explore.Ctx, prop, scope string, idx int64, batch []model.Doc
 	c.Outcome(explore.Hash(got.String()))
 	if d := obs.Diff(got, obs.Expected(ls), comps); d != "" {
 		c.Violate(scope, idx, sigOf(prop, "built", d)+c01Predicate(batch, d), d, render())
+		return
+	}
+	// a built segment keeps answering the same after the (pooled) builder has built something else
+	if strings.HasPrefix(scope, "MIX(") && mode == 1025 {
+		if _, err := build(c16Other, 1025); err == nil {
+			again, err := observe(seg)
+			if err != nil {
+				c.Violate(scope, idx, sigOf(prop, "observe-after-another-build", "error: "+err.Error()), err.Error(), render())
+			} else if d := obs.Diff(again, obs.Expected(ls), obs.CAll); d != "" {
+				c.Violate(scope, idx, sigOf(prop, "built-then-another-build", d), d, render())
+			}
+		}
 	}
 }
 
